@@ -205,12 +205,24 @@ def State.get (s : State R) (id : String) : Except String (SCirc R) :=
 def rowFn (A : AOps R) (row : Array R) : Nat → R := fun v => row.getD v A.zero
 
 /-- discrete-sum functional per variable from the domain sizes of the circuit -/
-def sumFunctional (A : AOps R) (doms : List (Nat × Nat)) : Nat → (R → R) → R :=
+def sumFunctional (A : AOps R) (doms : List (Nat × Nat)) (q : List (R × R) := []) :
+    Nat → (R → R) → R :=
   fun v g =>
     match doms.find? (·.1 == v) with
     | some (_, n) =>
         Node.quad A.toOps ((List.range n).map fun a => A.ofRat (a : Nat)) (fun _ => A.one) g
-    | none => A.zero
+    | none =>
+        -- continuous variable: the quadrature rule (points, weights) sent by the harness
+        A.toOps.sumL (q.map fun (a, w) => A.mul w (g a))
+
+/-- optional quadrature rule `{"quad": [[point, weight], ...]}` for continuous variables -/
+def getQuad (M : Mode R) (j : Json) : Except String (List (R × R)) :=
+  match j.getObjVal? "quad" with
+  | .error _ => .ok []
+  | .ok q => do
+      (← q.getArr?).toList.mapM fun pw => match pw with
+        | .arr #[a, w] => do pure (← M.parse a, ← M.parse w)
+        | _ => .error "quad: expected [point, weight]"
 
 def handle (M : Mode R) (s : State R) (j : Json) : Except String (State R × Json) := do
   let A := M.A
@@ -259,7 +271,7 @@ def handle (M : Mode R) (s : State R) (j : Json) : Except String (State R × Jso
       let op ← getStr j "op"
       let outs ← c.denote A θ
       let doms := c.domains
-      let S := sumFunctional A doms
+      let S := sumFunctional A doms (← getQuad M j)
       let newOuts : List (Node R R) ← match op with
         | "integrate" => do
             let zs ← getNatList j "vars"
@@ -284,7 +296,7 @@ def handle (M : Mode R) (s : State R) (j : Json) : Except String (State R × Jso
       let rows ← parseRows M j "X"
       let zs ← getNatList j "vars"
       let outs ← c.denote A θ
-      let S := sumFunctional A c.domains
+      let S := sumFunctional A c.domains (← getQuad M j)
       let res := rows.map fun row =>
         Json.arr (outs.toArray.map fun n =>
           Json.arr ((Array.range n.units).map fun i =>
@@ -298,7 +310,7 @@ def handle (M : Mode R) (s : State R) (j : Json) : Except String (State R × Jso
       let masks ← (← (← j.getObjVal? "masks").getArr?).toList.mapM fun m => do
         (← m.getArr?).toList.mapM (·.getNat?)
       let outs ← c.denote A θ
-      let S := sumFunctional A c.domains
+      let S := sumFunctional A c.domains (← getQuad M j)
       let res := (rows.zip masks).map fun (row, mask) =>
         Json.arr (outs.toArray.map fun n =>
           Json.arr ((Array.range n.units).map fun i =>
